@@ -12,7 +12,7 @@ import (
 func init() {
 	register("C19", "Decides structural necessary conditions of 'the witness only cosigns a forward-moving, consistent history per log': "+
 		"(R1) the only SQL writes of the witness are CREATE TABLE in New and the INSERT OR REPLACE of (logID, sth) in setSTH, which commits; setSTH is called only from Update, Commit only from setSTH, the stored STH is read by logID, and db/sk/Logs are written only by New; "+
-		"(R2) the decision table of Update over {log known, candidate parses, tx opens, stored row read / NotFound, stored STH parses, size order, roots equal, proof verifies, store, sign}: setSTH executes exactly when the log is known, the candidate verified and either nothing is stored (trust on first use) or the candidate is strictly larger and the consistency proof verified; equal size ⇒ no write, error iff roots differ; smaller ⇒ error; "+
+		"(R2) the decision table of Update over {log known, candidate parses, tx opens, stored row read / NotFound, stored STH parses, size order, roots equal, proof verifies, store, sign}: setSTH executes exactly when the log is known, the candidate verified and either nothing is stored (trust on first use) or the candidate is strictly larger and the consistency proof verified; equal size ⇒ no write, error iff roots differ; smaller ⇒ error; the three outcomes of the read (row read / nothing stored / read failed) are told apart by the nil test of the read error or by its status code (OK, NotFound), and getLatestSTH answers NotFound only when the scan reported sql.ErrNoRows — every other failure of the read keeps a code that Update refuses, so a transient read failure is never taken for first use; "+
 		"(R3) VerifyConsistency gets (hasher, prev.TreeSize, next.TreeSize, proof, prev root, next root) in that order, the equal-size test compares the two roots, setSTH stores the very bytes that were parsed under the requested log ID through the transaction that read the previous STH; "+
 		"(R4) every return of Update is (nil, error) for hard refusals, (held raw STH, FailedPrecondition) for stale/inconsistent candidates, (held raw STH, nil) for an identical one and signSTH(candidate) only after a successful store; GetSTH returns signSTH(parse(stored bytes)); "+
 		"(R5) parse returns an STH only for a configured log, after the JSON decoded, the log ID is absent (then filled in) or equal to the requested one and the log's verifier w.Logs[logID] accepted the signature over that same STH; signSTH signs tls.Marshal(*sth) with the witness key (SHA-256) and embeds the same *sth; the witness verifier checks over tls.Marshal(sth.SignedTreeHead) and accepts only if some signature verified; "+
@@ -214,30 +214,37 @@ func c19Update(r *Run, fn *ssa.Function) {
 		}
 		return out
 	}
+	// the outcome of reading the stored row — "read" (no error), "nothing stored" (an error
+	// with code NotFound) or "read failed" (any other error) — however Update tests it
+	readAtoms, readState, tellsNotFound := c19ReadDecision(r, fn)
 	atoms := []RuleAtom{
 		{Name: "known", Pat: "p0.Logs[p2]#1"},
 		{Name: "next", Pat: "nil?" + c19Next + "#1"},
 		{Name: "tx", Pat: "nil?(*sql.DB).BeginTx(*)#1"},
-		{Name: "get", Pat: "nil?" + c19Get + "#1"},
-		{Name: "code", OrdA: "status.Code(" + c19Get + "#1)", OrdB: "5"},
+	}
+	atoms = append(atoms, readAtoms...)
+	atoms = append(atoms, []RuleAtom{
 		{Name: "prev", Pat: "nil?" + c19Prev + "#1"},
 		{Name: "size", OrdA: c19Next + "#0.TreeSize", OrdB: c19Prev + "#0.TreeSize"},
 		{Name: "roots", Pat: rootsKey},
 		{Name: "proof", Pat: "nil?proof.VerifyConsistency(*)"},
 		{Name: "store", Pat: "nil?" + c19Set + "(*)"},
 		{Name: "sign", Pat: "nil?" + c19Sign + "(*)#1"},
-	}
+	}...)
 	classify := func(v map[string]string) string {
+		read := readState(v)
 		switch {
+		case read == "":
+			return "" // no error has this combination of nil-ness and status code
 		case v["known"] == "F":
 			return "unknown-log"
 		case v["next"] == "non":
 			return "candidate-rejected"
 		case v["tx"] == "non":
 			return "no-transaction"
-		case v["get"] == "non" && v["code"] != "=":
+		case read == "failed":
 			return "read-failed"
-		case v["get"] == "non":
+		case read == "nothing-stored":
 			return "first-use"
 		case v["prev"] == "non":
 			return "stored-unparsable"
@@ -305,9 +312,13 @@ func c19Update(r *Run, fn *ssa.Function) {
 		}
 		return ""
 	}
-	r.ClassTable(fn, "Update", nil, atoms,
-		[]string{"unknown-log", "candidate-rejected", "no-transaction", "read-failed", "first-use", "stored-unparsable", "smaller", "same-size-other-root", "identical", "proof-rejected", "extension"},
-		classify, judge)
+	classes := []string{"unknown-log", "candidate-rejected", "no-transaction", "read-failed", "first-use", "stored-unparsable", "smaller", "same-size-other-root", "identical", "proof-rejected", "extension"}
+	if !tellsNotFound {
+		// the code of the read error is never compared with NotFound: there is no first-use
+		// class to judge, every non-nil read error is a failed read
+		classes = append(classes[:4:4], classes[5:]...)
+	}
+	r.ClassTable(fn, "Update", nil, atoms, classes, classify, judge)
 
 	// ---- R3: arguments
 	r.Rule("C19.R3")
@@ -370,22 +381,15 @@ func c19Update(r *Run, fn *ssa.Function) {
 			ok := len(el[0]) == 1 && r.D.D(el[0][0]) == "p2"
 			r.Check("getLatestSTH:query.param", ok, r.Where(q), "the row is selected by the requested log ID (p2)")
 		}
-		// NotFound only for sql.ErrNoRows; success returns the scanned bytes
-		for _, ret := range Returns(fg) {
-			v := RetVals(ret)
-			if glob("status.Errorf(5, *)", r.D.D(v[1])) {
-				// whichever way the test is written (==, != with the branches exchanged, errors.Is):
-				// the NotFound return is unreachable when the scan error is not sql.ErrNoRows
-				tests := c19EqTests(r, fg, "(*sql.Row).Scan(*)", "g:sql.ErrNoRows")
-				if len(tests) == 0 {
-					r.Fail("getLatestSTH:NotFound-only-for-ErrNoRows", r.Where(ret), "undecided: no comparison of the scan error with sql.ErrNoRows")
-				}
-				for _, t := range tests {
-					r.MustGuard(fg, "getLatestSTH:NotFound-only-for-ErrNoRows", t[0], t[1], []ssa.Instruction{ret}, "NotFound return")
-				}
-			}
-		}
-		r.ErrorsGate(fg, "getLatestSTH:errors", "(*sql.Row).*", 2)
+		// NotFound only for sql.ErrNoRows (whichever way the test is written: ==, != with the
+		// branches exchanged, errors.Is); success returns the scanned bytes
+		r.Rule("C19.R2")
+		c19ReadClasses(r, fg)
+		r.Rule("C19.R3")
+		// every error of the row gates the success return; the scan must be among them (Scan
+		// also reports the error deferred from the query, so a separate row.Err() test is optional)
+		r.ErrorsGate(fg, "getLatestSTH:errors", "(*sql.Row).*", 1)
+		r.Check("getLatestSTH:errors.scan", len(CallsTo(fg, "(*sql.Row).Scan")) >= 1, r.FnPos(fg), "the row is read with (*sql.Row).Scan, whose error is among the gated ones")
 	}
 }
 
@@ -412,7 +416,7 @@ func c19Parse(r *Run, fn *ssa.Function) {
 	r.MustGuard(fn, "parse:log-known", "p0.Logs[p2]#1", "F", succ, "nil-error return")
 	r.ErrorsGate(fn, "parse:errors", "*", 3)
 	um := r.OneCall(fn, "parse:json", "json.Unmarshal")
-	vs := r.OneCall(fn, "parse:verify", "(*ct.SignatureVerifier).VerifySTHSignature")
+	vs := r.OneCall(fn, "parse:verify", "(ct.SignatureVerifier).VerifySTHSignature")
 	if vs == nil {
 		return
 	}
@@ -480,7 +484,9 @@ func c19Parse(r *Run, fn *ssa.Function) {
 			}
 			switch class {
 			case "absent":
-				if !ok || !filled {
+				// on acceptance the STH carries the requested log ID: it was filled in, or the
+				// (zero) ID it carries was found equal to the requested one
+				if !ok || !filled && v["same"] != eqID[0].Eq {
 					return fmt.Sprintf("absent log ID must be filled in and accepted (accepted=%v filled=%v)", ok, filled)
 				}
 			case "same":
@@ -532,7 +538,7 @@ func c19Sig(r *Run) {
 		if m := r.OneCall(fn, "verifier:input", "tls.Marshal"); m != nil {
 			r.ExpectArg(m, "verifier:input.sth", 0, "p1.SignedTreeHead")
 		}
-		if v := r.OneCall(fn, "verifier:verify", "(*ct.SignatureVerifier).VerifySignature"); v != nil {
+		if v := r.OneCall(fn, "verifier:verify", "(ct.SignatureVerifier).VerifySignature"); v != nil {
 			r.ExpectArg(v, "verifier:verify.key", 0, "*p0.SigVerifier || p0.SigVerifier")
 			r.ExpectArg(v, "verifier:verify.data", 1, "tls.Marshal(p1.SignedTreeHead)#0")
 			r.ExpectArg(v, "verifier:verify.sig", 2, "p1.WitnessSigs[*]")
